@@ -42,7 +42,9 @@ func NewLedger(w *World) *Ledger {
 }
 
 // independent re-implementation of the id mapping between market/deployment objects and escrow ids
-func depAcctKey(id dtypes.DeploymentID) string { return fmt.Sprintf("deployment/%s/%d", id.Owner, id.DSeq) }
+func depAcctKey(id dtypes.DeploymentID) string {
+	return fmt.Sprintf("deployment/%s/%d", id.Owner, id.DSeq)
+}
 func bidAcctKey(id mtypes.BidID) string {
 	return fmt.Sprintf("bid/%s/%d/%d/%d/%s", id.Owner, id.DSeq, id.GSeq, id.OSeq, id.Provider)
 }
